@@ -5,6 +5,7 @@ import sys
 ROOT = os.path.dirname(os.path.dirname(os.path.abspath(__file__)))
 sys.path.insert(0, os.path.join(ROOT, "vc"))
 import rewrite as rw  # noqa: E402
+from gen import Contract  # noqa: E402
 
 HEADER = ("#![allow(unused_imports, dead_code, unused_variables, unused_mut, unused_parens, "
           "non_snake_case, unused_assignments, unreachable_code, unreachable_patterns, non_camel_case_types)]\n"
@@ -209,12 +210,16 @@ ENV_OPAQUE_NOAST = """
 """
 
 
-def add_env_full(u):
+def add_env_full(u, real_typename=False):
     """The evaluator's state types verbatim: BlockState, ExpressionState, Bindings (eval.rs),
     StackFrame, Stack, Env (env.rs), with the AST (add_ast_types) and opaque stand-ins for
     every field type these functions do not look into."""
     u.raw(ENV_OPAQUE_NOAST, kind="prelude")
-    u.raw(ENV_STRUCT_OPAQUE, kind="prelude")
+    if real_typename:
+        u.raw(ENV_STRUCT_OPAQUE.replace("#[verifier::external_body] pub struct TypeName { _o: u8 }\n", ""), kind="prelude")
+        u.add_type("src/parser/ast.rs", "TypeName")
+    else:
+        u.raw(ENV_STRUCT_OPAQUE, kind="prelude")
     add_ast_types(u)
     u.add_type("src/eval.rs", "BlockState")
     u.add_type("src/eval.rs", "ExpressionState")
@@ -222,3 +227,50 @@ def add_env_full(u):
     u.add_type("src/env.rs", "StackFrame", rules=ENV_TYPE_RULES)
     u.add_type("src/env.rs", "Stack")
     u.add_type("src/env.rs", "Env", rules=ENV_STRUCT_RULES)
+
+
+TOP_SPEC = """
+pub open spec fn top(env: Env) -> StackFrame { env.stack.0@.last() }
+"""
+
+
+def add_env_accessors(u, props, props_safety=None):
+    """Env::{current_frame_mut, push_binding_block, push_expr_to_eval, push_value, pop_value}
+    (env.rs) verbatim, under frame contracts.  Needs `top()` (TOP_SPEC or the unit's specs)."""
+    ENV = "src/env.rs"
+    props_safety = props_safety or props
+    u.add_fn("src/eval.rs", "push_block", impl="Bindings", contract=Contract(
+        ensures=[("one_more", "final(self).block_bindings@.len() == old(self).block_bindings@.len() + 1")], props=props))
+    u.add_fn("src/eval.rs", "pop_block", impl="Bindings", contract=Contract(
+        requires=[("at_least_two", "old(self).block_bindings@.len() >= 2")],
+        ensures=[("one_less", "final(self).block_bindings@ == old(self).block_bindings@.drop_last()")],
+        props=props_safety))
+    u.add_fn(ENV, "current_frame_mut", impl="Env", contract=Contract(
+        requires=[("nonempty", "old(self).stack.0@.len() >= 1")],
+        ensures=[("is_top", "*r == old(self).stack.0@.last()"),
+                 ("frame", "final(self).stack.0@ == old(self).stack.0@.drop_last().push(*final(r))"),
+                 ("rest", "final(self).ticks == old(self).ticks && final(self).tick_limit == old(self).tick_limit && final(self).stack_limit == old(self).stack_limit && final(self).enforce_sandbox == old(self).enforce_sandbox")],
+        props=props_safety))
+    rest = "final(self).stack.0@.len() == old(self).stack.0@.len() && final(self).stack.0@.drop_last() == old(self).stack.0@.drop_last()"
+    u.add_fn(ENV, "push_binding_block", impl="Env", contract=Contract(
+        requires=[("nonempty", "old(self).stack.0@.len() >= 1")],
+        ensures=[("one_more", "top(*final(self)).bindings.block_bindings@.len() == top(*old(self)).bindings.block_bindings@.len() + 1"),
+                 ("same_pending", "top(*final(self)).exprs_to_eval == top(*old(self)).exprs_to_eval && top(*final(self)).evalled_values == top(*old(self)).evalled_values && top(*final(self)).bindings_next_block == top(*old(self)).bindings_next_block"),
+                 ("others", rest)], props=props))
+    u.add_fn(ENV, "push_expr_to_eval", impl="Env", contract=Contract(
+        requires=[("nonempty", "old(self).stack.0@.len() >= 1")],
+        ensures=[("pushed", "top(*final(self)).exprs_to_eval@ == top(*old(self)).exprs_to_eval@.push((state, expr))"),
+                 ("same_blocks", "top(*final(self)).bindings == top(*old(self)).bindings && top(*final(self)).evalled_values == top(*old(self)).evalled_values"),
+                 ("others", rest)], props=props))
+    u.add_fn(ENV, "push_value", impl="Env", contract=Contract(
+        requires=[("nonempty", "old(self).stack.0@.len() >= 1")],
+        ensures=[("pushed", "top(*final(self)).evalled_values@ == top(*old(self)).evalled_values@.push(value)"),
+                 ("same_blocks", "top(*final(self)).bindings == top(*old(self)).bindings && top(*final(self)).exprs_to_eval == top(*old(self)).exprs_to_eval"),
+                 ("others", rest)], props=props))
+    u.add_fn(ENV, "pop_value", impl="Env", contract=Contract(
+        requires=[("nonempty", "old(self).stack.0@.len() >= 1")],
+        ensures=[("popped", "r is Some <==> top(*old(self)).evalled_values@.len() > 0"),
+                 ("rest_values", "top(*final(self)).evalled_values@ == (if top(*old(self)).evalled_values@.len() > 0 { top(*old(self)).evalled_values@.drop_last() } else { top(*old(self)).evalled_values@ })"),
+                 ("same_blocks", "top(*final(self)).bindings == top(*old(self)).bindings && top(*final(self)).exprs_to_eval == top(*old(self)).exprs_to_eval"),
+                 ("others", rest)], props=props))
+
